@@ -184,10 +184,21 @@ VALID_WS = [(b"host", b"example.com"), (b"connection", b"Upgrade"), (b"upgrade",
             (b"sec-websocket-key", b"dGhlIHNhbXBsZSBub25jZQ=="), (b"sec-websocket-version", b"13")]
 
 
+# header names as a browser writes them: what the stream is handed when h11_pass_raw_headers is on
+VALID_WS_RAW = [(b"Host", b"example.com"), (b"Connection", b"Upgrade"), (b"Upgrade", b"websocket"),
+                (b"Sec-WebSocket-Key", b"dGhlIHNhbXBsZSBub25jZQ=="), (b"Sec-WebSocket-Version", b"13")]
+
+
 def gen_ws_request(rng):
     version = rng.choice(["1.1", "1.1", "1.1", "2", "2", "1.0"])
     if rng.random() < 0.6:
         hs = list(VALID_WS) if version != "2" else [(b"host", b"example.com"), (b"sec-websocket-version", b"13")]
+        if version != "2" and rng.random() < 0.3:
+            hs = list(VALID_WS_RAW)
+            if rng.random() < 0.4:
+                hs.append((b"Sec-WebSocket-Protocol", b"chat, superchat"))
+            if rng.random() < 0.3:
+                hs.append((b"Sec-WebSocket-Extensions", b"permessage-deflate"))
         if rng.random() < 0.5:
             hs.append(rng.choice(WS_HEADERS))
         if rng.random() < 0.3 and hs:
